@@ -52,8 +52,11 @@ pub fn lr_grammar(rng: &mut Rng, conflicts: bool) -> G {
     }
 }
 
-pub fn build(g: &G) -> Result<Built, String> {
-    let cfg = g.to_cfg();
+pub fn build(g: &G) -> Result<Built, String> { build_annotated(g, 0) }
+
+/// `mask`: which non-terminal occurrences carry the clipping annotation `^` (no influence on the language).
+pub fn build_annotated(g: &G, mask: u64) -> Result<Built, String> {
+    let cfg = if mask == 0 { g.to_cfg() } else { g.to_cfg_annotated(mask) };
     let r = std::panic::catch_unwind(|| -> Result<Built, String> {
         let cfg2 = check_and_transform_grammar(&cfg, GrammarType::LALR1).map_err(|_| "rejected-by-checks".to_string())?;
         let g2 = G::from_cfg(&cfg2, true);
@@ -148,7 +151,9 @@ pub fn run(a: &Args) {
         let conflicts = a.rest.iter().any(|x| x == "--conflicts");
         let g = lr_grammar(&mut rng, conflicts);
         if std::env::var("PV_TRACE").is_ok() { eprintln!("grammar {}", g.sx()); }
-        match build(&g) {
+        // every third grammar with clipped non-terminal occurrences (all of them, or a random subset)
+        let mask = if i % 3 == 1 { if rng.chance(1, 2) { u64::MAX } else { rng.next() | 1 } } else { 0 };
+        match build_annotated(&g, mask) {
             Err(why) => println!("(lr {} ({}))", g.sx(), why),
             Ok(b) => {
                 let ins = inputs(&mut rng, &g, a.thorough);
